@@ -392,6 +392,21 @@ def _g3_job(job):
                         break
         if changed:
             res["nontrivial"].append((name, cl, fl))
+        # each configured length governs its own language only: with the other length changed alone, the
+        # Fortran files (resp. C files) must stay byte-identical
+        cl2 = 95 if cl != 95 else 64
+        fl2 = 88 if fl != 88 else 57
+        for what, opts, kinds in (("C_line_length", dict(C_line_length=cl2, F_line_length=fl), ("f",)),
+                                  ("F_line_length", dict(C_line_length=cl, F_line_length=fl2), ("c",))):
+            r2 = shroud_run.run_yaml(_with_options(text, opts), argv, name=name)
+            res["runs"] += 1
+            if r2.status != "ok":
+                continue
+            for rel in sorted(r.files):
+                if lex.file_kind(rel) in kinds and rel.startswith(("wrap", "types", "util")) and r2.files.get(rel) != r.files[rel]:
+                    res["fail"].append(("g3:wrong-length-option:" + what, case,
+                                        "%s changes when only %s changes (%s -> %s)" % (rel, what, (cl, fl), (opts["C_line_length"], opts["F_line_length"]))))
+                    break
     return res
 
 
